@@ -628,6 +628,28 @@ fn csv_precision(precisions: &[usize]) -> bool {
     ok
 }
 
+#[allow(dead_code)]
+mod fault_divergence;
+
+fn fault_is_divergence() -> bool {
+    let mut ok = true;
+    for (name, f) in [("extra_doublings=0", fault_divergence::recoverable_error_is_a_divergence_default_settings as fn()),
+                      ("extra_doublings=1,2", fault_divergence::recoverable_error_is_a_divergence_with_extra_doublings as fn())] {
+        match std::panic::catch_unwind(f) {
+            Ok(()) => {}
+            Err(p) => {
+                let msg = p.downcast_ref::<String>().cloned().or_else(|| p.downcast_ref::<&str>().map(|s| s.to_string())).unwrap_or_default();
+                println!("REPLAY fault_is_divergence FAIL {name}: {}", msg.replace('\n', " | "));
+                ok = false;
+            }
+        }
+    }
+    if ok {
+        println!("REPLAY fault_is_divergence PASS recoverable fault at every evaluation of 13 post-warmup draws, extra_doublings 0, 1, 2");
+    }
+    ok
+}
+
 fn main() {
     let args: Vec<String> = std::env::args().collect();
     let cmd = args.get(1).map(|s| s.as_str()).unwrap_or("");
@@ -663,6 +685,7 @@ fn main() {
             hashmap_string(&cases)
         }
         "chain_unwrap" => chain_unwrap(),
+        "fault_is_divergence" => fault_is_divergence(),
         "csv_precision" => {
             let ps: Vec<usize> = args[2.min(args.len())..].iter().filter_map(|s| s.parse().ok()).collect();
             csv_precision(if ps.is_empty() { &[6, 65_535, 65_536, 1_000_000] } else { &ps })
